@@ -51,6 +51,20 @@ fn pairs(r: &mut Rng, sz: &Sizes) -> Vec<(JsonShape, JsonShape)> {
             }
         }
     }
+    // chain words: ordered pairs of 2 457 three-level chains, one pair in `k2` (chosen by the seed): about 190 000 pairs
+    // in the quick tier, 1.5 million in the thorough tier
+    {
+        let cw = chain_words();
+        let k2 = if sz.pairs > 10_000 { 4 } else { 32 };
+        let off2 = r.below(k2);
+        for (i, a) in cw.iter().enumerate() {
+            for (j, b) in cw.iter().enumerate() {
+                if (i * 7 + j) % k2 == off2 {
+                    out.push((a.clone(), b.clone()));
+                }
+            }
+        }
+    }
     for d in dict_shapes() {
         let o = json_shape::verif::as_optional(d.clone());
         out.push((d.clone(), d.clone()));
@@ -325,6 +339,19 @@ pub fn dict_docs() -> Vec<J> {
     }
     let mut out: Vec<J> = t.iter().filter_map(|x| serde_json::from_str::<serde_json::Value>(x).ok().map(|_| parse_j(x))).collect();
     out.extend(width_docs_at(&crate::dict::sizes(1200)));
+    // thresholds beyond the ordinary width families: a handful of very long arrays (rows that conflict about a member,
+    // one odd element last / first, a member missing in the last row)
+    for n in crate::dict::big_sizes() {
+        let rep = |e: &str| vec![e; n].join(",");
+        for t in [
+            format!("[{{\"a\":\"x\"}},{}]", rep("{\"a\":1}")),
+            format!("[{},\"x\"]", rep("1")),
+            format!("[{},{{}}]", rep("{\"id\":1}")),
+            format!("[{{\"k\":[1]}},{}]", rep("{\"k\":[]}")),
+        ] {
+            out.push(parse_j(&t));
+        }
+    }
     // member names and strings whose LENGTH sits at a threshold
     for n in crate::dict::sizes(2000) {
         let k = "k".repeat(n);
@@ -519,6 +546,14 @@ pub fn c01(r: &mut Rng, sz: &Sizes, out: &mut Vec<String>) {
             out.push(format!("sourcesdoc\t{}\t!ok *", hexes[..n].join("\t")));
         }
     }
+    for h in two_special_histories() {
+        let hexes: Vec<String> = h.iter().map(|d| crate::wire::hex(d.as_bytes())).collect();
+        out.push(format!("sourcesdoc\t{}\t!ok *", hexes.join("\t")));
+    }
+    for (d, e) in space_twins() {
+        out.push(format!("sourcesdoc\t{}\t{}\t!ok *", crate::wire::hex(d.as_bytes()), crate::wire::hex(e.as_bytes())));
+        out.push(format!("sourcesdoc\t{}\t{}\t{}\t!ok *", crate::wire::hex(e.as_bytes()), crate::wire::hex(e.as_bytes()), crate::wire::hex(d.as_bytes())));
+    }
     // one member name spelled differently in sibling elements, as a source
     for t in spelled_names().1 {
         out.push(format!("sourcesdoc\t{}\t!ok *", crate::wire::hex(t.as_bytes())));
@@ -585,6 +620,10 @@ pub fn c08(r: &mut Rng, sz: &Sizes, out: &mut Vec<String>) {
         for j in 0..fixed {
             out.push(format!("p_c08\t{}\t{}\t!ok *", hex_doc(&pool[i], 0), hex_doc(&pool[j], 0)));
         }
+    }
+    for (d, e) in space_twins() {
+        out.push(format!("p_c08\t{}\t{}\t!ok *", crate::wire::hex(d.as_bytes()), crate::wire::hex(e.as_bytes())));
+        out.push(format!("p_c08\t{}\t{}\t!ok *", crate::wire::hex(e.as_bytes()), crate::wire::hex(d.as_bytes())));
     }
     // both merge orders for every ordered pair of twenty small documents at every kind of position
     for h in position_histories(false) {
@@ -686,6 +725,39 @@ pub fn small_histories() -> Vec<Vec<String>> {
     out
 }
 
+/// a document and its twins that differ by ONE space inserted or removed anywhere (between tokens: the same document;
+/// inside a string or a member name: another one), for documents whose strings end in escaped backslashes and quotes
+pub fn space_twins() -> Vec<(String, String)> {
+    let docs = [
+        "{\"path\": \"C:\\\\tmp\\\\\", \"first name\": \"Ada\"}",
+        "{\"q\": \"say \\\"hi\\\"\", \"a b\": [1, 2]}",
+        "[{\"x y\": 1}, {\"x y\": 2, \"z\": \"\\\\\"}]",
+        "{\"a\": {\"b c\": null}, \"d\": \"e f\"}",
+        "[\"a b\", \"c\\\\\", \"d e\"]",
+    ];
+    let mut out = Vec::new();
+    for d in docs {
+        let cs: Vec<char> = d.chars().collect();
+        for p in 0..=cs.len() {
+            let mut ins: String = cs[..p].iter().collect();
+            ins.push(' ');
+            ins.extend(cs[p..].iter());
+            let mut cands = vec![ins];
+            if p < cs.len() && cs[p] == ' ' {
+                let mut del: String = cs[..p].iter().collect();
+                del.extend(cs[p + 1..].iter());
+                cands.push(del);
+            }
+            for e in cands {
+                if e != d && serde_json::from_str::<serde_json::Value>(&e).is_ok() {
+                    out.push((d.to_string(), e));
+                }
+            }
+        }
+    }
+    out
+}
+
 /// twenty small documents and six one-hole contexts: "what does this position keep when X meets Y there"
 pub const POS_DOCS: [&str; 20] = [
     "null", "1", "\"s\"", "[]", "[1]", "[null]", "{}", "{\"a\":1}", "[1,\"x\"]", "[[]]", "[[],[]]", "[[],[null]]", "[[1],[2]]", "[[1],[\"x\"]]",
@@ -712,6 +784,41 @@ pub fn position_histories(triples: bool) -> Vec<Vec<String>> {
                     for z in POS_DOCS {
                         if x != y && y != z {
                             out.push(vec![c.replace('@', x), c.replace('@', y), c.replace('@', z)]);
+                        }
+                    }
+                }
+            }
+        }
+    }
+    out
+}
+
+/// n sources of one background document with TWO different documents among them, at the ends, around the middle and
+/// next to each other (n from the usual sizes and the thresholds of the source): a fold that regroups its sources
+/// (in halves, in chunks) merges the two in another order
+pub fn two_special_histories() -> Vec<Vec<String>> {
+    let mut ns: Vec<usize> = vec![8, 9, 63, 64, 65, 66];
+    for k in crate::dict::sizes(400) {
+        if k >= 6 && !ns.contains(&k) {
+            ns.push(k);
+        }
+    }
+    ns.truncate(10);
+    let specials = ["{\"f\":{\"a\":1}}", "{\"f\":{\"b\":2}}", "{\"f\":[1,\"x\"]}", "{\"f\":null}", "{\"f\":\"s\"}", "{}", "{\"f\":[1]}"];
+    let mut out = Vec::new();
+    for bg in ["{\"f\":3}", "{\"f\":[2]}"] {
+        for (ai, a) in specials.iter().enumerate() {
+            for (bi, b) in specials.iter().enumerate() {
+                if ai == bi {
+                    continue;
+                }
+                for &n in &ns {
+                    for (i, j) in [(0, n - 1), (n / 2 - 1, n / 2), (1, n - 2), (n / 2 - 2, n / 2 + 2)] {
+                        if i < j && j < n {
+                            let mut h = vec![bg.to_string(); n];
+                            h[i] = a.to_string();
+                            h[j] = b.to_string();
+                            out.push(h);
                         }
                     }
                 }
@@ -749,7 +856,7 @@ pub fn width_histories() -> Vec<Vec<String>> {
 pub fn c03(r: &mut Rng, sz: &Sizes, out: &mut Vec<String>) {
     reachable_ops(r, sz, out);
     infer_ops(r, sz, out, false);
-    for h in small_histories().into_iter().chain(width_histories()).chain(position_histories(true)) {
+    for h in small_histories().into_iter().chain(width_histories()).chain(position_histories(true)).chain(two_special_histories()) {
         let hexes: Vec<String> = h.iter().map(|d| crate::wire::hex(d.as_bytes())).collect();
         out.push(format!("p_c03\t{}\t!ok", hexes.join("\t")));
     }
@@ -837,6 +944,12 @@ pub fn c09(r: &mut Rng, sz: &Sizes, out: &mut Vec<String>) {
         let h = rand_history(r, DKEYS);
         let hexes: Vec<String> = h.iter().map(|d| hex_doc(d, r.below(4))).collect();
         out.push(format!("p_c09\t{k}\t{}\t!ok *", hexes.join("\t")));
+    }
+    // long histories of one background record with two different records among them: a background record re-added
+    for h in two_special_histories() {
+        let hexes: Vec<String> = h.iter().map(|d| crate::wire::hex(d.as_bytes())).collect();
+        let idx = (2..h.len()).find(|i| h[*i] == h[h.len() / 3] ).unwrap_or(2);
+        out.push(format!("p_readd\t{k}\t{idx}\t{}\t!ok *", hexes.join("\t")));
     }
     // one position (a tuple slot, a member, an array element, an optional member, ...) taken by every ordered pair of
     // twenty small documents, then each re-fed: what the position keeps when a tuple meets an array there, an array
@@ -1364,6 +1477,34 @@ pub fn spelled_names() -> (Vec<String>, Vec<String>) {
 }
 
 pub fn c04(r: &mut Rng, sz: &Sizes, out: &mut Vec<String>) {
+    // a valid source directly followed (or preceded) by a near twin of itself: the same text padded with characters
+    // that Unicode, but not JSON, calls white space, in another letter case, cut short, doubled — from_sources has to
+    // judge every source on its own
+    {
+        let docs = ["1", "\"s\"", "true", "[1,2]", "{\"a\":1}", "null", "[]", "{\"k\":[1,\"x\"]}"];
+        let pads = ['\u{c}', '\u{b}', '\u{a0}', '\u{85}', '\u{2028}', '\u{3000}', '\u{feff}', '\u{200b}', '\u{1680}', '\0'];
+        let hx = |t: &str| crate::wire::hex(t.as_bytes());
+        for d in docs {
+            let mut twins: Vec<String> = Vec::new();
+            for c in pads {
+                twins.push(format!("{d}{c}"));
+                twins.push(format!("{c}{d}"));
+                twins.push(format!("{c}{d}{c}"));
+            }
+            twins.push(d.to_uppercase());
+            twins.push(d[..d.len() - 1].to_string());
+            twins.push(format!("{d}{d}"));
+            twins.push(format!("{d} {d}"));
+            twins.push(format!(" {d}\r\n"));
+            for t in twins {
+                out.push(format!("sourcesdoc\t{}\t{}", hx(d), hx(&t)));
+                out.push(format!("sourcesdoc\t{}\t{}\t{}", hx(d), hx(d), hx(&t)));
+                out.push(format!("sourcesdoc\t{}\t{}\t{}", hx("[7]"), hx(d), hx(&t)));
+                out.push(format!("inferdoc\t{}", hx(&t)));
+                out.push(format!("supersetchk\t(V0 N U0 S0 B0 (A0 U0) (O0 (k61 U0)))\t{}", hx(&t)));
+            }
+        }
+    }
     let (dup, sib) = spelled_names();
     for t in dup.iter().chain(sib.iter()) {
         let h = crate::wire::hex(t.as_bytes());
@@ -1488,6 +1629,20 @@ pub fn c07(r: &mut Rng, sz: &Sizes, out: &mut Vec<String>) {
             out.push(format!("p_c07\t{}\t{}\t!ok", crate::wire::hex(one.as_bytes()), crate::wire::hex(many.as_bytes())));
             let one = format!("{{\"list\":[{elem}],\"n\":1}}");
             let many = format!("{{\"n\":2,\"list\":[{}]}}", vec![elem; n].join(" , "));
+            out.push(format!("p_c07\t{}\t{}\t!ok", crate::wire::hex(one.as_bytes()), crate::wire::hex(many.as_bytes())));
+        }
+    }
+    // a first element and a differently shaped one after it, the second repeated n times (n from the usual sizes, the
+    // thresholds of the source and their neighbours, also the very large ones): more copies of an element that is
+    // already there must not change the shape
+    let mut ns: Vec<usize> = vec![2, 9, 33, 257, 1000];
+    ns.extend(crate::dict::sizes(2000));
+    ns.extend(crate::dict::big_sizes());
+    // (rows of an array of objects: the array stays an array of one record shape whatever the number of rows)
+    for (first, rest) in [("{\"a\":\"x\"}", "{\"a\":1}"), ("{\"k\":[1],\"id\":0}", "{\"k\":[]}"), ("{\"a\":1}", "{}"), ("{\"a\":{\"b\":1}}", "{\"a\":{\"c\":2}}")] {
+        for &n in &ns {
+            let one = format!("[{first},{rest}]");
+            let many = format!("[{first},{}]", vec![rest; n].join(","));
             out.push(format!("p_c07\t{}\t{}\t!ok", crate::wire::hex(one.as_bytes()), crate::wire::hex(many.as_bytes())));
         }
     }
